@@ -29,7 +29,7 @@ import Verif.Model.Validity
     sshapi op=renew|rekey unow= anow= pnow= g= p= bd= ova= ovb= ct= tls=0|1 -> `ok d= vaoff=0 id=<identity secs> idoff=0` | `rej` | `crash`
     idsign va=<u64> vb=<u64>                          -> `ok id=<unix nb>,<unix na>`
     migrate a=<claims> p=<claims> ssh=0|1             -> as `claims`, for the provisioner reloaded from the admin DB
-    conv dir=c2l2c p=<claims> ssh=nil|0|1 | conv dir=l2c|l2c2l (l=nil | x=<-|X-|Xa/b/c> s=<-|S<0|1>;<u>;<h>>)
+    conv dir=c2l2c p=<claims> ssh=nil|0|1 | conv dir=l2c|l2c2l (l=nil | x=<-|X<0|1>-|X<0|1>a/b/c> s=<-|S<0|1>;<u>;<h>>)
                                                       -> claims after claimsToLinkedca / claimsToCertificates round trips
     chainset | chain fn=<Type.Method> | order fn=<method> -> the Lean tables chainTable / orderTable, rendered
     acme now=<time> def= rnb=<time> rna=<time>        -> `nb=<time> na=<time>` | `rej:500` (order not storable)
@@ -115,7 +115,9 @@ def optDur3? (t : String) : Option (Option Dur3) := if t = "-" then some none el
 
 def lclaims? (x s : String) : Option LClaims := do
   let xb ← (if x = "-" then some none
-            else if x.startsWith "X" then (optDur3? (x.drop 1).toString).map some else none)
+            else if x.startsWith "X1" then (optDur3? (x.drop 2).toString).map fun d => some (true, d)
+            else if x.startsWith "X0" then (optDur3? (x.drop 2).toString).map fun d => some (false, d)
+            else none)
   let sb ← (if s = "-" then some none
             else if s.startsWith "S" then
               match ((s.drop 1).toString.splitOn ";") with
@@ -131,7 +133,7 @@ def optDur3S (d : Option Dur3) : String := match d with | some d => dur3S d | no
 def lclaimsS : Option LClaims → String
   | none => "l=nil"
   | some l =>
-    let x := match l.x509 with | none => "-" | some d => "X" ++ optDur3S d
+    let x := match l.x509 with | none => "-" | some (e, d) => (if e then "X1" else "X0") ++ optDur3S d
     let s := match l.ssh with | none => "-" | some (e, u, h) => s!"S{if e then "1" else "0"};{optDur3S u};{optDur3S h}"
     s!"x={x} s={s}"
 
